@@ -18,12 +18,14 @@ use std::collections::{BTreeMap, BTreeSet, HashSet};
 pub const DEF: PropDef = PropDef {
     id: "C15",
     level: "model_checking",
-    rule: "Part 1: states = complete physical states (both maps + counters of a real Dictionary and a real QuotedTripleStore::new()) reached breadth-first from the empty pair by Dictionary::encode(t), t in {a,b,c,\"\"}, and QuotedTripleStore::encode(x,y,z) over ALL triples of identifiers handed out so far (plain or quoted, result nesting <= 2), depth <= 5 (thorough: 6), de-duplicated on the physical state; in every state every identifier ever handed out (and unseen ones) is decoded and looked up in both directions. Part 2: all operation sequences of length <= 3 (thorough: 4) over 10 operations are executed on fresh real databases, histories ending in the same complete physical state (identifier stores, counters, quad index dump, seeds) are merged, and every ORDERED pair of the remaining distinct databases is united; operations: triple, same triple in a named graph, quad with literal, empty named graph, quoted-triple subject (string API), quoted-triple object in a named graph, nested quoted triple, two add_tagged_triple - over a shared vocabulary inserted in different orders; a.union(&b) is compared lexically with the union of the abstract datasets. A pair is non-trivial when some identifier denotes different terms in a and b (ids clash); distinct = distinct (abstract dataset of a, abstract dataset of b) among the non-trivial pairs, plus the distinct part-1 states of depth <= 5 that hold >= 1 quoted triple and >= 2 plain terms (the depth-6 ones are counted in counters.dict_nontrivial_states but not shipped as a set, so distinct_nontrivial is a lower bound)",
+    rule: "Part 1: states = complete physical states (both maps + counters of a real Dictionary and a real QuotedTripleStore::new()) reached breadth-first from the empty pair by Dictionary::encode(t), t in {a,b,c,\"\"}, and QuotedTripleStore::encode(x,y,z) over ALL triples of identifiers handed out so far (plain or quoted, result nesting <= 2), depth <= 5 (thorough: 6), de-duplicated on the physical state; in every state every identifier ever handed out (and unseen ones) is decoded and looked up in both directions. Part 1b (related terms): every sequence, repetitions included, of length <= 5 (thorough 6) of Dictionary::encode over eight RELATED values (a, A, ' a', 'a ', aa, the empty string, precomposed and decomposed e-acute), followed by one quoted triple over its first and last identifier, same observation table after every call (plain tree search). Part 1c (counter thresholds): Dictionary with next_id = 2^31 - k and QuotedTripleStore with next_qt_id = 2^32 - k, k in 1..3, five fresh encodes each: every call must panic or hand out an unused identifier of the right range that decodes back. Part 2: operand histories = all operation sequences of length <= 3 (thorough: 4) over the first alphabet (10 operations: triple, same triple in a named graph, quad with literal, empty named graph, quoted-triple subject through the string API, quoted-triple object in a named graph, nested quoted triple, two add_tagged_triple) and of length <= 2 over the full alphabet (thorough: also length 3 against every partner of length <= 1) (16 operations: + a quoted term that no quad refers to, a quoted term as OBJECT component and as PREDICATE component of a quoted term, a probability seed on a quoted-subject triple, a graph name also used as a subject, case / white-space twins of a term and a literal), executed on fresh real databases over a shared vocabulary inserted in different orders; histories ending in the same complete physical state (identifier stores, counters, quad index dump, seeds) are merged; every ORDERED pair of distinct databases whose histories both lie in one of the two bounds is united and a.union(&b) is compared lexically with the union of the abstract datasets (quads, graph identities, quoted terms incl. unreferenced ones, seeds). A pair is non-trivial when some identifier denotes different terms in a and b (ids clash); distinct = distinct (abstract dataset of a, abstract dataset of b) among the non-trivial pairs, plus the distinct part-1 states of depth <= 5 that hold >= 1 quoted triple and >= 2 plain terms (the depth-6 ones are counted in counters.dict_nontrivial_states but not shipped as a set, so distinct_nontrivial is a lower bound), plus the distinct related-term dictionaries with >= 2 terms",
     assumptions: &[
-        "term alphabet part 1: a, b, c and the empty string; quoted components range over every identifier handed out so far; nesting <= 2; depth <= 5 quick / 6 thorough",
-        "vocabulary part 2: http://e/{a,b,c,p,q,g1,g2} and the literal 1 (lexical spaces of IRIs and literals disjoint, no white space inside terms, so the `<< s p o >>` rendering of decode_any is unambiguous)",
+        "term alphabet part 1: a, b, c and the empty string; quoted components range over every identifier handed out so far; nesting <= 2; depth <= 5 quick / 6 thorough; part 1b: a, A, ' a', 'a ', aa, empty string, U+00E9, e+U+0301",
+        "counter thresholds (part 1c) are reached by setting the public counter fields instead of making 2^31 calls: what encode returns for a fresh term depends on the counter only; a panic (the Dictionary's exhaustion assert, an overflow check) is accepted, an identifier of the wrong range or a repeated identifier is not",
+        "vocabulary part 2: http://e/{a,b,c,p,q,g1,g2} and the literal 1 (lexical spaces of IRIs and literals disjoint, no white space inside terms that occur in quoted terms, so the `<< s p o >>` rendering of decode_any is unambiguous); the twins http://e/A and ' 1' occur in plain quad positions only",
         "two databases never give the same triple different probabilities (the statement does not say which wins)",
         "`union(&mut self, ..)`: the receiver may grow caches or its dictionary, but must denote the same dataset afterwards and every identifier it handed out earlier must still decode to the same term; same for the argument",
+        "plain terms that occur only in a dictionary (no quad, graph name, quoted term or seed uses them) are not part of the dataset the statement lists and are not compared; Dictionary::merge / QuotedTripleStore::merge (merge by identifier) are not in the quantifier and not judged",
         "QuotedTripleStore is created with new() (the derived Default starts its counter at 0, i.e. outside the quoted range; no code in the repository uses it)",
         "reference model: harness/src/reference/termdb.rs (self-tested); part 1 needs no model beyond the history of identifiers handed out",
     ],
@@ -39,7 +41,13 @@ const QBIT: u32 = 0x8000_0000;
 // Part 1: Dictionary + QuotedTripleStore
 // ---------------------------------------------------------------------------------------------
 
-const TERMS: [&str; 4] = ["a", "b", "c", ""];
+/// the first four terms are the alphabet of the breadth-first search; the others are RELATED values
+/// (case twin, leading / trailing white space, one a prefix of another, the two Unicode spellings of
+/// e-acute) used by the related-terms family only
+const TERMS: [&str; 10] = ["a", "b", "c", "", "A", " a", "a ", "aa", "\u{e9}", "e\u{301}"];
+const BFS_TERMS: u8 = 4;
+/// indexes into TERMS of the related-terms family
+const RELATED: [u8; 8] = [0, 3, 4, 5, 6, 7, 8, 9];
 
 /// `Enc(i)`: Dictionary::encode(TERMS[i]); `QEnc(i,j,k)`: QuotedTripleStore::encode over the i-th, j-th,
 /// k-th identifier handed out so far (order of first hand-out, plain and quoted interleaved)
@@ -128,7 +136,7 @@ impl DState {
         self.seen.iter().enumerate().filter(|(_, s)| s.1 <= 1).map(|(i, _)| i as u8).collect()
     }
     fn ops(&self) -> Vec<DOp> {
-        let mut v: Vec<DOp> = (0..TERMS.len() as u8).map(DOp::Enc).collect();
+        let mut v: Vec<DOp> = (0..BFS_TERMS).map(DOp::Enc).collect();
         let c = self.component_candidates();
         for &i in &c {
             for &j in &c {
@@ -318,6 +326,9 @@ fn fail_dict(out: &mut ShardOut, ops: &[DOp], step: usize, v: Viol) {
     if ops.iter().any(|o| matches!(o, DOp::QEnc(..))) {
         tags.push("uses_quoted_store".into());
     }
+    if ops.iter().any(|o| matches!(o, DOp::Enc(i) if *i >= BFS_TERMS)) {
+        tags.push("uses_related_terms".into());
+    }
     out.fail(json!({"part": "dictionary", "ops": upto}), v.symptom, v.detail, tags);
 }
 
@@ -349,6 +360,10 @@ fn part1(ctx: &Ctx, out: &mut ShardOut) {
         let first = guarded(|| QuotedTripleStore::default().encode(1, 2, 3)).unwrap_or(u32::MAX);
         out.count("info_first_id_of_default_constructed_quoted_store", first as u64);
         out.count("info_default_constructed_quoted_store_id_in_quoted_range", (first & QBIT != 0) as u64);
+    }
+    related_family(ctx, out);
+    if lead {
+        threshold_family(out);
     }
     let mut frontier: Vec<Vec<DOp>> = vec![vec![]];
     let mut moved_seen = false;
@@ -462,6 +477,125 @@ fn part1(ctx: &Ctx, out: &mut ShardOut) {
     }
 }
 
+/// Part 1b: related terms. Every sequence (repetitions included) of Dictionary::encode calls over
+/// eight related values, then one quoted triple over (first id, last id, first id); the whole
+/// observation table after every call. Plain tree search (no de-duplication).
+fn related_family(ctx: &Ctx, out: &mut ShardOut) {
+    let depth = if ctx.thorough() { 6 } else { 5 };
+    fn rec(path: &mut Vec<DOp>, depth: usize, out: &mut ShardOut) {
+        if !path.is_empty() {
+            // the sequence itself, then a quoted triple over its first and last identifier
+            let mut full = path.clone();
+            let distinct = path.iter().collect::<HashSet<_>>().len() as u8;
+            full.push(DOp::QEnc(0, distinct - 1, 0));
+            out.evaluations += 1;
+            out.traces += 1;
+            out.count("related_terms_sequences", 1);
+            match replay_dict(&full) {
+                Ok(st) => {
+                    out.max("max_related_terms_in_one_dictionary", st.plain.len() as u64);
+                    if st.plain.len() >= 2 {
+                        out.count("related_terms_sequences_with_two_or_more_related_terms", 1);
+                        out.nontrivial(&("related", st.fingerprint()));
+                    }
+                    if path.len() > st.plain.len() {
+                        out.count("related_terms_sequences_with_a_re_encode", 1);
+                    }
+                }
+                Err((step, v)) => match replay_dict(&full) {
+                    Err((_, v2)) if v2.symptom == v.symptom => fail_dict(out, &full, step, v),
+                    _ => out.machinery_errors.push(format!("non-deterministic re-execution of dictionary ops {:?}", full)),
+                },
+            }
+        }
+        if path.len() >= depth {
+            return;
+        }
+        for t in RELATED {
+            path.push(DOp::Enc(t));
+            rec(path, depth, out);
+            path.pop();
+        }
+    }
+    // sharded by the first term
+    for (k, t) in RELATED.iter().enumerate() {
+        if !ctx.mine(k as u64) {
+            continue;
+        }
+        let mut path = vec![DOp::Enc(*t)];
+        rec(&mut path, depth, out);
+    }
+    out.max("max_related_terms_depth", depth as u64);
+}
+
+/// Part 1c: the two counter thresholds. The Dictionary refuses (assert) to hand out identifiers at or
+/// beyond 2^31; the quoted store's counter ends at 2^32 - 1. Both are reached by setting the public
+/// counter field (the result of encoding a fresh term depends on the counter only) instead of making
+/// 2^31 calls. Oracle: every call either panics or returns an identifier of the right range that was
+/// not handed out before and decodes to what was encoded.
+fn threshold_case(store: &str, back: u32, out: &mut ShardOut) -> Option<Viol> {
+    let calls = 5u32;
+    let mut handed: Vec<u32> = Vec::new();
+    if store == "dictionary" {
+        let mut d = Dictionary::new();
+        d.next_id = QBIT - back;
+        for k in 0..calls {
+            let t = format!("t{}", k);
+            out.count("threshold_calls", 1);
+            match guarded(|| d.encode(&t)) {
+                Err(_) => out.count("threshold_calls_refused_by_panic", 1),
+                Ok(id) => {
+                    out.count("threshold_ids_handed_out", 1);
+                    if id & QBIT != 0 {
+                        return Some(viol("plain_id_in_quoted_range", format!("with next_id = 2^31 - {}, encode({:?}) (call {}) returned {:#x}, which lies in the quoted-triple range", back, t, k, id)));
+                    }
+                    if handed.contains(&id) {
+                        return Some(viol("distinct_terms_share_an_id", format!("with next_id = 2^31 - {}, encode({:?}) (call {}) returned {:#x} again", back, t, k, id)));
+                    }
+                    if d.decode(id) != Some(t.as_str()) {
+                        return Some(viol("decode_does_not_return_the_original_term", format!("with next_id = 2^31 - {}, decode({:#x}) = {:?} after encode({:?})", back, id, d.decode(id), t)));
+                    }
+                    handed.push(id);
+                }
+            }
+        }
+    } else {
+        let mut q = QuotedTripleStore::new();
+        q.next_qt_id = (u32::MAX - back).wrapping_add(1);
+        for k in 0..calls {
+            out.count("threshold_calls", 1);
+            match guarded(|| q.encode(k, k, k)) {
+                Err(_) => out.count("threshold_calls_refused_by_panic", 1),
+                Ok(id) => {
+                    out.count("threshold_ids_handed_out", 1);
+                    if id & QBIT == 0 {
+                        return Some(viol("quoted_id_outside_quoted_range", format!("with next_qt_id = 2^32 - {}, quoted encode({},{},{}) returned {:#x}, high bit not set", back, k, k, k, id)));
+                    }
+                    if handed.contains(&id) {
+                        return Some(viol("distinct_terms_share_an_id", format!("with next_qt_id = 2^32 - {}, quoted encode({},{},{}) returned {:#x} again", back, k, k, k, id)));
+                    }
+                    if q.decode(id) != Some((k, k, k)) {
+                        return Some(viol("decode_does_not_return_the_original_term", format!("with next_qt_id = 2^32 - {}, quoted decode({:#x}) = {:?} after encode({},{},{})", back, id, q.decode(id), k, k, k)));
+                    }
+                    handed.push(id);
+                }
+            }
+        }
+    }
+    None
+}
+
+fn threshold_family(out: &mut ShardOut) {
+    for store in ["dictionary", "quoted"] {
+        for back in 1..=3u32 {
+            out.evaluations += 1;
+            if let Some(v) = threshold_case(store, back, out) {
+                out.fail(json!({"part": "threshold", "store": store, "back": back}), v.symptom, v.detail, vec!["part=threshold".into(), format!("store={}", store)]);
+            }
+        }
+    }
+}
+
 // ---------------------------------------------------------------------------------------------
 // Part 2: union of two independently built databases
 // ---------------------------------------------------------------------------------------------
@@ -497,8 +631,43 @@ enum UOp {
     TaggedApb,
     /// add_tagged_triple(c, q, "1", 0.7)
     TaggedCq1,
+    // ---- second alphabet (round 3) ----
+    /// encode_term_star("<< c q a >>") and nothing else: a quoted term no quad refers to
+    QuotedUnreferenced,
+    /// (c, p, << a q << b q a >> >>): a quoted term as OBJECT component of a quoted term
+    NestedObjComp,
+    /// (<< a << b q a >> c >>, q, b): a quoted term as PREDICATE component of a quoted term
+    NestedPredComp,
+    /// (<< a p b >>, q, c) in the default graph plus probability_seeds[(<< a p b >>, q, c)] = 0.5
+    SeedQuoted,
+    /// add_triple_parts(g1, p, a): the graph name of QuadApbG1 / QuotedObjectG1 used as a subject
+    TripleG1pa,
+    /// add_triple_parts("http://e/A", p, " 1"): case / white-space twins of a and "1"
+    TripleRelated,
 }
-const UOPS: [UOp; 10] = [UOp::TripleApb, UOp::TripleBqa, UOp::QuadApbG1, UOp::QuadCq1G2, UOp::EmptyG2, UOp::QuotedSubject, UOp::QuotedObjectG1, UOp::Nested, UOp::TaggedApb, UOp::TaggedCq1];
+/// first alphabet (histories up to length 3, thorough 4)
+const UOPS_OLD: [UOp; 10] = [UOp::TripleApb, UOp::TripleBqa, UOp::QuadApbG1, UOp::QuadCq1G2, UOp::EmptyG2, UOp::QuotedSubject, UOp::QuotedObjectG1, UOp::Nested, UOp::TaggedApb, UOp::TaggedCq1];
+/// full alphabet (histories up to length 2; thorough: 3 against partners of length <= 1)
+const UOPS: [UOp; 16] = [
+    UOp::TripleApb,
+    UOp::TripleBqa,
+    UOp::QuadApbG1,
+    UOp::QuadCq1G2,
+    UOp::EmptyG2,
+    UOp::QuotedSubject,
+    UOp::QuotedObjectG1,
+    UOp::Nested,
+    UOp::TaggedApb,
+    UOp::TaggedCq1,
+    UOp::QuotedUnreferenced,
+    UOp::NestedObjComp,
+    UOp::NestedPredComp,
+    UOp::SeedQuoted,
+    UOp::TripleG1pa,
+    UOp::TripleRelated,
+];
+const A_UPPER: &str = "http://e/A";
+const L1_SPACE: &str = " 1";
 
 fn uop_name(op: UOp) -> String {
     format!("{:?}", op)
@@ -520,6 +689,12 @@ fn apply_model(m: &mut AbstractDb, op: UOp) {
         UOp::Nested => m.add(&t(C), &t(P), &T::q(T::q(t(A), t(P), t(B)), t(Q), t(L1)), None),
         UOp::TaggedApb => m.tag(&t(A), &t(P), &t(B), 0.3),
         UOp::TaggedCq1 => m.tag(&t(C), &t(Q), &t(L1), 0.7),
+        UOp::QuotedUnreferenced => m.note_quoted(&T::q(t(C), t(Q), t(A))),
+        UOp::NestedObjComp => m.add(&t(C), &t(P), &T::q(t(A), t(Q), T::q(t(B), t(Q), t(A))), None),
+        UOp::NestedPredComp => m.add(&T::q(t(A), T::q(t(B), t(Q), t(A)), t(C)), &t(Q), &t(B), None),
+        UOp::SeedQuoted => m.tag(&T::q(t(A), t(P), t(B)), &t(Q), &t(C), 0.5),
+        UOp::TripleG1pa => m.add(&t(G1), &t(P), &t(A), None),
+        UOp::TripleRelated => m.add(&t(A_UPPER), &t(P), &t(L1_SPACE), None),
     }
 }
 
@@ -562,6 +737,33 @@ fn apply_real(db: &mut SparqlDatabase, op: UOp) {
         }
         UOp::TaggedApb => db.add_tagged_triple(A, P, B, 0.3),
         UOp::TaggedCq1 => db.add_tagged_triple(C, Q, L1, 0.7),
+        UOp::QuotedUnreferenced => {
+            db.encode_term_star(&format!("<< <{}> <{}> <{}> >>", C, Q, A));
+        }
+        UOp::NestedObjComp => {
+            let (ib, iq, ia) = (enc(db, B), enc(db, Q), enc(db, A));
+            let inner = db.quoted_triple_store.write().unwrap().encode(ib, iq, ia);
+            let outer = db.quoted_triple_store.write().unwrap().encode(ia, iq, inner);
+            let (s, p) = (enc(db, C), enc(db, P));
+            db.add_triple(Triple { subject: s, predicate: p, object: outer });
+        }
+        UOp::NestedPredComp => {
+            let (ib, iq, ia) = (enc(db, B), enc(db, Q), enc(db, A));
+            let inner = db.quoted_triple_store.write().unwrap().encode(ib, iq, ia);
+            let ic = enc(db, C);
+            let outer = db.quoted_triple_store.write().unwrap().encode(ia, inner, ic);
+            db.add_triple(Triple { subject: outer, predicate: iq, object: ib });
+        }
+        UOp::SeedQuoted => {
+            let s = db.encode_term_star(&format!("<< <{}> <{}> <{}> >>", A, P, B));
+            let p = enc(db, Q);
+            let o = enc(db, C);
+            let t = Triple { subject: s, predicate: p, object: o };
+            db.add_triple(t.clone());
+            db.probability_seeds.insert(t, 0.5);
+        }
+        UOp::TripleG1pa => db.add_triple_parts(G1, P, A),
+        UOp::TripleRelated => db.add_triple_parts(A_UPPER, P, L1_SPACE),
     }
 }
 
@@ -799,11 +1001,29 @@ fn pair_tags(oa: &[UOp], ob: &[UOp], component: &str) -> Vec<String> {
         if ops.is_empty() {
             t.push(format!("{}_empty", name));
         }
-        if has(ops, &[UOp::QuotedSubject, UOp::QuotedObjectG1, UOp::Nested]) {
+        if has(ops, &[UOp::QuotedSubject, UOp::QuotedObjectG1, UOp::Nested, UOp::QuotedUnreferenced, UOp::NestedObjComp, UOp::NestedPredComp, UOp::SeedQuoted]) {
             t.push(format!("{}_has_quoted", name));
         }
-        if has(ops, &[UOp::Nested]) {
+        if has(ops, &[UOp::Nested, UOp::NestedObjComp, UOp::NestedPredComp]) {
             t.push(format!("{}_has_nested_quoted", name));
+        }
+        if has(ops, &[UOp::QuotedUnreferenced]) {
+            t.push(format!("{}_has_unreferenced_quoted", name));
+        }
+        if has(ops, &[UOp::NestedObjComp]) {
+            t.push(format!("{}_has_quoted_as_object_component", name));
+        }
+        if has(ops, &[UOp::NestedPredComp]) {
+            t.push(format!("{}_has_quoted_as_predicate_component", name));
+        }
+        if has(ops, &[UOp::SeedQuoted]) {
+            t.push(format!("{}_has_seed_on_quoted_triple", name));
+        }
+        if has(ops, &[UOp::TripleG1pa]) && has(ops, &[UOp::QuadApbG1, UOp::QuotedObjectG1]) {
+            t.push(format!("{}_graph_name_also_a_term", name));
+        }
+        if has(ops, &[UOp::TripleRelated]) {
+            t.push(format!("{}_has_related_terms", name));
         }
         if has(ops, &[UOp::QuadApbG1, UOp::QuadCq1G2, UOp::QuotedObjectG1]) {
             t.push(format!("{}_has_named_graph_quads", name));
@@ -811,7 +1031,7 @@ fn pair_tags(oa: &[UOp], ob: &[UOp], component: &str) -> Vec<String> {
         if has(ops, &[UOp::EmptyG2]) && !has(ops, &[UOp::QuadCq1G2]) {
             t.push(format!("{}_has_empty_named_graph", name));
         }
-        if has(ops, &[UOp::TaggedApb, UOp::TaggedCq1]) {
+        if has(ops, &[UOp::TaggedApb, UOp::TaggedCq1, UOp::SeedQuoted]) {
             t.push(format!("{}_has_seeds", name));
         }
     }
@@ -822,23 +1042,41 @@ fn pair_case(oa: &[UOp], ob: &[UOp]) -> Value {
     json!({"part": "union", "self": oa.iter().map(|o| uop_name(*o)).collect::<Vec<_>>(), "other": ob.iter().map(|o| uop_name(*o)).collect::<Vec<_>>()})
 }
 
-/// all operation sequences (repetitions included) of length <= 3 (thorough 4), shortest first
-fn sequences(thorough: bool) -> Vec<Vec<UOp>> {
-    let mut all: Vec<Vec<UOp>> = vec![vec![]];
+/// operand histories, shortest first: all sequences (repetitions included) of length <= 3 (thorough 4)
+/// over the first alphabet and of length <= 2 (thorough 3, see `bounds`) over the full alphabet. `true` = the history
+/// uses the first alphabet only.
+fn sequences(thorough: bool) -> Vec<(Vec<UOp>, bool)> {
+    let (lo, lf, lx) = bounds(thorough);
+    let lf = lf.max(lx);
+    let old_only = |s: &[UOp]| s.iter().all(|o| UOPS_OLD.contains(o));
+    let mut all: Vec<(Vec<UOp>, bool)> = vec![(vec![], true)];
     let mut level: Vec<Vec<UOp>> = vec![vec![]];
-    for _len in 1..=(if thorough { 4 } else { 3 }) {
+    for len in 1..=lo.max(lf) {
         let mut next = Vec::new();
         for s in &level {
             for op in UOPS {
                 let mut s2 = s.clone();
                 s2.push(op);
-                next.push(s2);
+                let old = old_only(&s2);
+                if (old && len <= lo) || len <= lf {
+                    next.push(s2);
+                }
             }
         }
-        all.extend(next.iter().cloned());
+        all.extend(next.iter().map(|s| (s.clone(), old_only(s))));
         level = next;
     }
     all
+}
+
+/// (longest history over the first alphabet, longest history over the full alphabet, longest history
+/// over the full alphabet when the partner's history has length <= 1)
+fn bounds(thorough: bool) -> (usize, usize, usize) {
+    if thorough {
+        (4, 2, 3)
+    } else {
+        (3, 2, 2)
+    }
 }
 
 /// complete physical state of everything `union` reads: both identifier stores with their counters,
@@ -905,6 +1143,32 @@ fn check_pair(oa: &[UOp], ob: &[UOp], out: &mut ShardOut, sample: bool) {
         if ma.quoted.len() + mb.quoted.len() > 0 {
             out.count("union_pairs_with_quoted_terms", 1);
         }
+        // second alphabet: what the pair crosses (facts about the OTHER operand, the translated side)
+        let referenced = |m: &AbstractDb, q: &String| m.quads.iter().any(|x| x.0.contains(q.as_str()) || x.1.contains(q.as_str()) || x.2.contains(q.as_str())) || m.seeds.keys().any(|k| k.0.contains(q.as_str()) || k.1.contains(q.as_str()) || k.2.contains(q.as_str()));
+        if mb.quoted.iter().any(|q| !referenced(&mb, q)) {
+            out.count("union_pairs_other_has_unreferenced_quoted_term", 1);
+            if mb.quoted.iter().any(|q| !referenced(&mb, q) && !ma.quoted.contains(q)) {
+                out.count("union_pairs_other_has_unreferenced_quoted_term_unknown_to_self", 1);
+            }
+        }
+        if has(ob, &[UOp::NestedObjComp]) {
+            out.count("union_pairs_other_has_quoted_as_object_component", 1);
+        }
+        if has(ob, &[UOp::NestedPredComp]) {
+            out.count("union_pairs_other_has_quoted_as_predicate_component", 1);
+        }
+        if mb.seeds.keys().any(|k| k.0.starts_with("<<")) {
+            out.count("union_pairs_other_has_seed_on_quoted_triple", 1);
+        }
+        if mb.graphs.iter().any(|g| mb.quads.iter().any(|x| &x.0 == g || &x.1 == g || &x.2 == g)) {
+            out.count("union_pairs_other_uses_a_graph_name_as_a_term", 1);
+        }
+        let terms = |m: &AbstractDb| -> BTreeSet<String> { m.quads.iter().flat_map(|x| [x.0.clone(), x.1.clone(), x.2.clone()]).collect() };
+        let (ta, tb) = (terms(&ma), terms(&mb));
+        let twin = |x: &BTreeSet<String>, y: &BTreeSet<String>| (x.contains(A) && y.contains(A_UPPER)) || (x.contains(L1) && y.contains(L1_SPACE));
+        if twin(&ta, &tb) || twin(&tb, &ta) {
+            out.count("union_pairs_case_or_space_twin_terms_across_operands", 1);
+        }
         if sample {
             out.sample(json!({"part": "union", "self": oa.iter().map(|o| uop_name(*o)).collect::<Vec<_>>(), "other": ob.iter().map(|o| uop_name(*o)).collect::<Vec<_>>(), "ids_clash": facts.plain_clash || facts.quoted_clash, "union_quads": want.quads, "union_named_graphs": want.graphs, "union_quoted_terms": want.quoted, "union_seeds": want.seeds.iter().map(|(k, p)| json!([k, f64::from_bits(*p)])).collect::<Vec<_>>()}));
         }
@@ -913,14 +1177,17 @@ fn check_pair(oa: &[UOp], ob: &[UOp], out: &mut ShardOut, sample: bool) {
 
 fn part2(ctx: &Ctx, out: &mut ShardOut) {
     let seqs = sequences(ctx.thorough());
+    let (lo, lf, lx) = bounds(ctx.thorough());
     let lead = ctx.shard == 0;
     // Explicit-state search over database histories: every sequence is executed on a fresh real
     // database; histories that end in the same physical state are merged (the union call reads nothing
     // but that state, so the first history reaching a state stands for all of them).
     let mut index: std::collections::HashMap<String, usize> = std::collections::HashMap::new();
     let mut reps: Vec<Vec<UOp>> = Vec::new();
+    // shortest history over the first alphabet that reaches the state (usize::MAX: none)
+    let mut rep_old_len: Vec<usize> = Vec::new();
     let mut rep_models: Vec<AbstractDb> = Vec::new();
-    for s in &seqs {
+    for (s, old_only) in &seqs {
         let built = guarded(|| build(s));
         let (db, m) = match built {
             Ok(x) => x,
@@ -946,6 +1213,9 @@ fn part2(ctx: &Ctx, out: &mut ShardOut) {
                 if rep_models[k] != m {
                     out.machinery_errors.push(format!("two histories with the same physical state have different models: {:?} vs {:?}", reps[k], s));
                 }
+                if *old_only {
+                    rep_old_len[k] = rep_old_len[k].min(s.len());
+                }
                 if lead {
                     out.count("union_histories_merged_into_an_earlier_physical_state", 1);
                 }
@@ -953,26 +1223,44 @@ fn part2(ctx: &Ctx, out: &mut ShardOut) {
             None => {
                 index.insert(fp, reps.len());
                 reps.push(s.clone());
+                rep_old_len.push(if *old_only { s.len() } else { usize::MAX });
                 rep_models.push(m);
             }
         }
     }
     let n = reps.len();
+    // a pair is in the bound when both operands are reached by first-alphabet histories of length <= lo,
+    // or both by (any) histories of length <= lf, or one by a history of length <= lx and the other by a
+    // history of length <= 1
+    let in_bound = |i: usize, j: usize| {
+        let (a, b) = (reps[i].len(), reps[j].len());
+        (rep_old_len[i] <= lo && rep_old_len[j] <= lo) || (a <= lf && b <= lf) || (a.max(b) <= lx && a.min(b) <= 1)
+    };
     if lead {
         out.count("union_histories_per_operand", seqs.len() as u64);
         out.count("union_distinct_physical_operands", n as u64);
+        out.count("union_distinct_physical_operands_first_alphabet", rep_old_len.iter().filter(|l| **l <= lo).count() as u64);
+        out.count("union_distinct_physical_operands_needing_the_second_alphabet", rep_old_len.iter().filter(|l| **l == usize::MAX).count() as u64);
         out.count("union_distinct_abstract_operands", rep_models.iter().collect::<BTreeSet<_>>().len() as u64);
-        out.count("union_pairs_in_bound", (n * n) as u64);
+        let mut pairs = 0u64;
+        for i in 0..n {
+            for j in 0..n {
+                if in_bound(i, j) {
+                    pairs += 1;
+                }
+            }
+        }
+        out.count("union_pairs_in_bound", pairs);
         out.states += n as u64;
     }
     // pairs ordered by the longer representative, so that a capped run has completed a stated bound
-    let maxlen = reps.last().map_or(0, |s| s.len());
+    let maxlen = reps.iter().map(|s| s.len()).max().unwrap_or(0);
     let mut idx = 0u64;
     let mut completed: i64 = -1;
     for bound in 0..=maxlen {
         for i in 0..n {
             for j in 0..n {
-                if reps[i].len().max(reps[j].len()) != bound {
+                if reps[i].len().max(reps[j].len()) != bound || !in_bound(i, j) {
                     continue;
                 }
                 idx += 1;
@@ -980,7 +1268,7 @@ fn part2(ctx: &Ctx, out: &mut ShardOut) {
                     continue;
                 }
                 if ctx.expired() {
-                    out.capped.push(format!("wall-clock cap hit in the union pairs with longer operand history of length {} (all pairs with both histories of length <= {} completed)", bound, completed));
+                    out.capped.push(format!("wall-clock cap hit in the union pairs with longer operand history of length {} (all pairs in the bound with both histories of length <= {} completed)", bound, completed));
                     return;
                 }
                 check_pair(&reps[i], &reps[j], out, idx % 20_011 == 5 || (bound == 2 && idx % 3001 == 7));
@@ -993,8 +1281,12 @@ fn part2(ctx: &Ctx, out: &mut ShardOut) {
 
 fn run(ctx: &Ctx) -> ShardOut {
     let mut out = ShardOut::default();
+    let t0 = std::time::Instant::now();
     part1(ctx, &mut out);
+    out.max("max_ms_part1_of_one_shard", t0.elapsed().as_millis() as u64);
+    let t1 = std::time::Instant::now();
     part2(ctx, &mut out);
+    out.max("max_ms_part2_of_one_shard", t1.elapsed().as_millis() as u64);
     out
 }
 
@@ -1012,6 +1304,18 @@ fn replay(_ctx: &Ctx, case: &Value) -> ShardOut {
             out.evaluations = 1;
             if let Err((step, v)) = replay_dict(&ops) {
                 fail_dict(&mut out, &ops, step, v);
+            }
+        }
+        Some("threshold") => {
+            let store = case["store"].as_str().unwrap_or("");
+            let back = case["back"].as_u64().unwrap_or(0) as u32;
+            if !["dictionary", "quoted"].contains(&store) || !(1..=3).contains(&back) {
+                out.machinery_errors.push(format!("replay file does not describe a C15 threshold case: {}", case));
+                return out;
+            }
+            out.evaluations = 1;
+            if let Some(v) = threshold_case(store, back, &mut out) {
+                out.fail(json!({"part": "threshold", "store": store, "back": back}), v.symptom, v.detail, vec!["part=threshold".into(), format!("store={}", store)]);
             }
         }
         Some("union") => {
